@@ -122,6 +122,12 @@ def is_reply_send(e: Engine, n: Node) -> Optional[str]:
         return canon(n.ast.func.value, n.frame)
     if 'slimta.smtp.io.IO.send_reply' in ts and n.ast.args:
         return canon(n.ast.args[0], n.frame)
+    if not ts and isinstance(n.ast.func, ast.Attribute) and \
+            n.ast.func.attr == 'send' and n.ast.args and \
+            (path_of(n.ast.args[0], n.frame) or '').endswith('.io'):
+        # receiver of unknown type (taken out of a tuple a helper handed
+        # back): `<x>.send(self.io)` is the signature of Reply.send
+        return canon(n.ast.func.value, n.frame)
     return None
 
 
@@ -327,6 +333,13 @@ def table_guarded(e, g):
                      a.elts[1], (ast.Name, ast.Attribute)) and
                  common.reply_constant_code(e, a.elts[1], n.ctx) is not None]
         if len(pairs) >= 2:
+            # spelt out at the call site and walked by an inlined helper
+            # whose loop was unrolled: the paths are in the graph after all
+            kids = [c for c in getattr(n.frame, 'children', ())
+                    if c.call is n.ast]
+            if kids and kids[0].star_args is not None and not any(
+                    it.frame is kids[0] for it in g.of_kind('iter')):
+                continue
             return n
     return None
 
